@@ -81,7 +81,10 @@ type gen struct {
 func hexs(s string) string { return Hx([]byte(s)) }
 
 func (g *gen) do(op string) string {
-	out := g.w.exec(op)
+	if g.w.wedged {
+		return "skipped" // an earlier operation of this case never returned; nothing more is executed or recorded
+	}
+	out := g.w.execW(op)
 	g.note(op, out)
 	g.raw = append(g.raw, op)
 	g.impls = append(g.impls, out)
@@ -226,7 +229,7 @@ func (g *gen) saveOp(name string, via string) {
 	if via == "" {
 		g.do("sv:" + fields)
 	} else {
-		applied = g.do("asv:"+via+":"+fields) == "pass"
+		applied = g.do("asv:"+via+":"+fields+g.claim("", true)) == "pass"
 	}
 	if applied {
 		if u == nil || u.deleted {
@@ -313,6 +316,61 @@ func (g *gen) spell(key string) (string, bool) {
 	}
 }
 
+// An identity claim the client makes OUTSIDE its token: a value for the header the interceptors use
+// among themselves to pass the verified user name on (any spelling of the key is the same key to
+// net/http).  Mostly the name of someone who holds what the request needs; "" = no such header.
+func (g *gen) claim(key string, admin bool) string {
+	r := g.c.Rng
+	if !r.Chance(14) {
+		return ""
+	}
+	var cands []string
+	for n, u := range g.users {
+		if u.deleted {
+			continue
+		}
+		if admin && u.admin || !admin && g.holds(n, key, false) {
+			cands = append(cands, n)
+		}
+	}
+	sortStrings(cands)
+	name := g.pickUser()
+	if len(cands) > 0 && r.Chance(80) {
+		name = cands[r.Intn(len(cands))]
+	}
+	if r.Chance(20) {
+		name = mixCase(r, name)
+	}
+	g.feats["identity-header"] = true
+	h := ":H" + hexs(name)
+	if r.Chance(15) {
+		h += "," + hexs(g.pickUser())
+	}
+	return h
+}
+
+// a stream path as the URL of a WebSocket upgrade may spell it: an upgrade is a GET, whose path
+// net/http cleans (301) but does not case-fold or trim
+func (g *gen) spellWs(key string) (string, bool) {
+	r := g.c.Rng
+	if !r.Chance(22) {
+		return key, false
+	}
+	switch r.Intn(5) {
+	case 0, 1:
+		g.feats["ws-noncanonical"] = true
+		return mixCase(r, key), false
+	case 2:
+		g.feats["ws-noncanonical"] = true
+		return key + " ", false
+	case 3:
+		g.feats["ws-noncanonical"] = true
+		return key + "/", false
+	default:
+		return g.spell(key)
+	}
+}
+
 func (g *gen) httpOp() {
 	r := g.c.Rng
 	key := g.anyKey()
@@ -356,7 +414,7 @@ func (g *gen) httpOp() {
 	if nonCanon {
 		g.feats["noncanonical"] = true
 	}
-	g.do(fmt.Sprintf("hs:%s:%s:%s", m, hexs(p), g.tokFor(key)))
+	g.do(fmt.Sprintf("hs:%s:%s:%s%s", m, hexs(p), g.tokFor(key), g.claim(key, false)))
 }
 
 var apiPaths = []string{"/api/v1/users", "/api/v1/users/nobody", "/api/v1/routes", "/api/v1/routes/nopattern", "/api/v1/streams/no/stream", "/api/v1/streams", "/api/v1/streamsfoo",
@@ -373,7 +431,7 @@ func (g *gen) apiOp() {
 	if t[0] == 'R' {
 		t = "A" + t[1:]
 	}
-	g.do(fmt.Sprintf("ap:%s:%s:%s", m, hexs(p), t))
+	g.do(fmt.Sprintf("ap:%s:%s:%s%s", m, hexs(p), t, g.claim("", true)))
 	_ = r
 }
 
@@ -567,7 +625,8 @@ func (g *gen) startSession() {
 		g.sess = append(g.sess, &sess{key: "n" + strconv.Itoa(j), kind: "rtsp", plan: plan, user: user})
 	case x < 78:
 		key := g.anyKey()
-		out := g.do(fmt.Sprintf("ws:rtsp:%s:%s", hexs("/streams"+key), g.tokFor(key)))
+		sp, _ := g.spellWs(key)
+		out := g.do(fmt.Sprintf("ws:rtsp:%s:%s%s", hexs("/streams"+sp), g.tokFor(key), g.claim(key, false)))
 		if strings.HasPrefix(out, "up.") {
 			wsUser := ""
 			if tk := g.lastTokUser; tk != "" {
@@ -579,7 +638,8 @@ func (g *gen) startSession() {
 	default:
 		key := g.anyKey()
 		ctok := g.tokFor(key)
-		out := g.do(fmt.Sprintf("ws:control:%s:%s", hexs("/streams"+key), ctok))
+		sp, _ := g.spellWs(key)
+		out := g.do(fmt.Sprintf("ws:control:%s:%s%s", hexs("/streams"+sp), ctok, g.claim(key, false)))
 		if strings.HasPrefix(out, "up.") {
 			wsj, _ := strconv.Atoi(out[3:])
 			ch := g.do("wc:" + out[3:])
@@ -619,7 +679,7 @@ func (g *gen) wspStep(s *sess) {
 		if r.Chance(40) {
 			tok = g.tokFor(key)
 		}
-		out := g.do(fmt.Sprintf("ws:data:%s:%s", hexs("/streams"+key), tok))
+		out := g.do(fmt.Sprintf("ws:data:%s:%s%s", hexs("/streams"+key), tok, g.claim(key, false)))
 		if strings.HasPrefix(out, "up.") {
 			ch := s.key
 			if r.Chance(8) {
@@ -705,7 +765,7 @@ func (g *gen) generate() {
 		case x < 12:
 			name := g.pickUser()
 			if r.Chance(30) {
-				if g.do("adl:"+g.tokRef()+":"+hexs(name)) == "pass" {
+				if g.do("adl:"+g.tokRef()+":"+hexs(name)+g.claim("", true)) == "pass" {
 					if u := g.users[name]; u != nil {
 						u.deleted = true
 						g.feats["user-deleted"] = true
@@ -737,7 +797,8 @@ func (g *gen) generate() {
 		case x < 65:
 			key := g.anyKey()
 			ext := g.pick([]string{".flv", ".flv", ".flv", ".mp4", ""})
-			g.do(fmt.Sprintf("ws:none:%s:%s", hexs("/streams"+key+ext), g.tokFor(key)))
+			sp, _ := g.spellWs(key)
+			g.do(fmt.Sprintf("ws:none:%s:%s%s", hexs("/streams"+sp+ext), g.tokFor(key), g.claim(key, false)))
 		case x < 72:
 			g.startSession()
 		default:
@@ -823,6 +884,10 @@ func classify(op string, verdict string, feats map[string]bool, raw, impls []str
 	case "rf":
 		base = "token-refresh"
 	}
+	if strings.HasPrefix(f[len(f)-1], "H") {
+		// the request carried the client's own value for the internal identity header
+		base = "client-identity-header-" + f[0]
+	}
 	return base + "-" + v
 }
 
@@ -886,10 +951,12 @@ func g0pick(r *Rng, ss []string) string { return ss[r.Intn(len(ss))] }
 // ---- runner ----
 
 type caseRec struct {
-	line  string
-	raw   []string
-	impls []string
-	feats map[string]bool
+	line   string
+	raw    []string
+	impls  []string
+	feats  map[string]bool
+	slow   bool // a wait limit expired while this record was made
+	wedged bool // an operation never returned
 }
 
 func runOps(c *Ctx, raw []string) caseRec {
@@ -898,7 +965,44 @@ func runOps(c *Ctx, raw []string) caseRec {
 	for _, op := range raw {
 		g.do(op)
 	}
-	return caseRec{line: "c11 case " + strings.Join(g.ops, " "), raw: g.raw, impls: g.impls, feats: featsOf(g.raw)}
+	return caseRec{line: "c11 case " + strings.Join(g.ops, " "), raw: g.raw, impls: g.impls, feats: featsOf(g.raw), slow: g.w.slow, wedged: g.w.wedged}
+}
+
+// settle: a record made while some wait limit expired says nothing yet (a loaded machine can make any
+// wait long).  The same operations are executed again on a fresh world, nothing else running in this
+// process, with limits three times as long; only what that second run shows is judged.  An operation
+// that does not return in the second run either is a stable hang of the implementation: a finding
+// with the case as replay.
+func settle(c *Ctx, k caseRec) (caseRec, bool) {
+	if !k.slow {
+		return k, true
+	}
+	c.Count("rerun-after-expired-wait")
+	waitLimit, hangLimit = 3*waitLimitBase, 3*hangLimitBase
+	k2 := runOps(c, k.raw)
+	waitLimit, hangLimit = waitLimitBase, hangLimitBase
+	if !k2.slow {
+		c.Count("rerun-clean")
+		return k2, true
+	}
+	c.Count("rerun-slow-again")
+	src := k2
+	if len(k2.raw) == 0 && k.wedged {
+		src = k // the stuck operation of the first run blocks even the reset of the world: the process is wedged
+	}
+	for at, o := range src.impls {
+		if o == "hung" {
+			kind := strings.SplitN(src.raw[at], ":", 2)[0]
+			c.Find(Finding{Kind: "oracle", Class: "hang-" + kind, Case: src.line, Impl: "no answer within " + (3 * waitLimitBase).String() + ", twice", Spec: "an answer",
+				Detail: fmt.Sprintf("op #%d %s (%s)", at, src.raw[at], describe(src.raw[at]))})
+			break
+		}
+	}
+	if src.wedged && len(k2.raw) == 0 {
+		return k, false
+	}
+	// whatever else the second run shows is stable: it is judged like any other record
+	return k2, !k2.wedged
 }
 
 // features recomputed from the ops themselves (so that replayed cases classify identically)
@@ -922,6 +1026,13 @@ func featsOf(raw []string) map[string]bool {
 			}
 		case "dl", "adl":
 			f["user-deleted"] = true
+		case "ws":
+			if sp := strings.TrimPrefix(string(Unhx(x[2])), "/streams"); utils.CanonicalPath(sp) != sp && !strings.Contains(sp, ".") {
+				f["ws-noncanonical-path"] = true
+			}
+		}
+		if strings.HasPrefix(x[len(x)-1], "H") {
+			f["client-identity-header"] = true
 		}
 	}
 	return f
@@ -939,7 +1050,8 @@ func run(c *Ctx) {
 			for _, t := range f[2:] {
 				raw = append(raw, strings.SplitN(t, "@", 2)[0])
 			}
-			cases = append(cases, runOps(c, raw))
+			k, _ := settle(c, runOps(c, raw))
+			cases = append(cases, k)
 			c.Count("corpus-case")
 		}
 	}
@@ -949,7 +1061,14 @@ func run(c *Ctx) {
 			g := &gen{c: c, w: newWorld(), users: map[string]*uinfo{}, feats: map[string]bool{}}
 			g.generate()
 			g.w.close()
-			cases = append(cases, caseRec{line: "c11 case " + strings.Join(g.ops, " "), raw: g.raw, impls: g.impls, feats: featsOf(g.raw)})
+			k, usable := settle(c, caseRec{line: "c11 case " + strings.Join(g.ops, " "), raw: g.raw, impls: g.impls, feats: featsOf(g.raw), slow: g.w.slow, wedged: g.w.wedged})
+			cases = append(cases, k)
+			if !usable {
+				// a goroutine is stuck inside the implementation, possibly holding one of its locks:
+				// nothing executed after this could be trusted
+				c.Count("stopped-after-stable-hang")
+				break
+			}
 		}
 	}
 	lines := make([]string, len(cases))
